@@ -68,6 +68,7 @@ def _n(env, default): return int(os.environ.get(env, default))
 NATIVE = {
     'stream': {'panic_props': ['C07', 'C17', 'C18', 'C05'], 'enum': 'stream_oracle::enumerate', 'check': 'stream_oracle::check_stream(c)', 'n': _n('VERIF_STREAM_CASES', '150000'),
                'family': 'ELF64/LE files of <= 490 bytes from kani/replay_src/stream_oracle.rs::enumerate: 0-3 section headers, 0-1 program header, numbering escapes, bad links/names/sizes, truncation, one injected I/O fault'},
+    'streamx': {'panic_props': ['C07', 'C17', 'C18'], 'enum': 'stream_oracle::enumerate_x', 'check': 'stream_oracle::check_stream(c)', 'n': 40000, 'family': 'the complete small ELF objects of the C01 family (both classes x both byte orders, every section kind, 1-3 header fields at boundary values, in-section words replaced; no compressed section), cut at a random point in a quarter of the cases, at most one injected I/O fault; stream parser against slice parser'},
     'c20n': {'panic_props': ['C20', 'C01'], 'enum': 'stream_oracle::enumerate', 'check': 'slice_oracle::check_c20_file(&c.file[..c.cut.min(c.file.len())])', 'n': _n('VERIF_STREAM_CASES', '150000'),
              'family': 'the same ELF64/LE files as the stream oracle, through the slice parser: by-name lookup against a manual scan, typed views against section_data, find_common_data against the targeted accessors'},
     'hashn': {'panic_props': ['C11', 'C12', 'C01'], 'enum': 'slice_oracle::enumerate_hash', 'check': 'slice_oracle::check_hash_tables(c)', 'n': _n('VERIF_HASH_CASES', '200000'),
@@ -435,7 +436,7 @@ PAIRING = [
     (r'^C09\.(get\.|next\.|iter)', lambda m: ['c09n', 'c09']),
     (r'^C10\.(verify_ident|parse_ident|from_ei_data)\.', lambda m: ['c10n', 'c10']),
     (r'^(C12\.sysv_hash|C11\.gnu_hash|proof:hash::sysv_hash|proof:hash::gnu_hash)', lambda m: 'hash'),
-    (r'^(C07|C08|C17)\.|^C05\.stream_|^C10\.open_stream|^(safety|proof):elf_stream::', lambda m: 'stream'),
+    (r'^(C07|C08|C17)\.|^C05\.stream_|^C10\.open_stream|^(safety|proof):elf_stream::', lambda m: ['stream', 'streamx']),
     (r'^C20\.|^proof:elf_bytes::ElfBytes::(find_common_data|symbol_table|dynamic_symbol_table|dynamic|section_header_by_name)', lambda m: 'c20n'),
     (r'^C13\.(get_requirement|get_definition|names)\.', lambda m: 'c13n'),
     (r'^C1[12]\.(find|new)\.|^(safety|termination|proof):hash::(SysVHashTable|GnuHashTable)', lambda m: 'hashn'),
